@@ -124,6 +124,7 @@ class Sched:
         self.log_list = []
         self._h = hashlib.blake2b(digest_size=16)
         self.leaked = 0
+        self._in_hook = False
         self.probes = {}
         self.probe_hits = {}
         self.probe_log = None         # optional [(probe name, thread idx)] in order
@@ -343,7 +344,12 @@ class Sched:
         if self.at_step:
             f = self.at_step.pop(s, None)
             if f is not None:
-                f()
+                # fault-plan hooks are harness code: atomic, no yield point inside them
+                self._in_hook = True
+                try:
+                    f()
+                finally:
+                    self._in_hook = False
         if s > self.step_cap:
             stuck = (s - self.last_advance_step) > self.step_cap // 2
             self._raise_abort(StepCap(stuck))
@@ -351,7 +357,7 @@ class Sched:
     # --------------------------------------------------------- yield points
     def yield_point(self, traced=False):
         me = self.by_ident.get(get_ident())
-        if me is None:
+        if me is None or self._in_hook:
             return
         self._tick(me)
         # fast path: a sticky strategy that stays needs no runnable set
